@@ -370,6 +370,111 @@ class NumHandler(Unit):
         st.oblige("upper bound is sound", z3.Implies(z3.And(guard, z3.Not(ubnone(rz))), evn(e.z) <= ubR(rz)))
 
 
+def _frac(model, z):
+    from fractions import Fraction
+    v = model.eval(z, model_completion=True)
+    try:
+        return Fraction(v.numerator_as_long(), v.denominator_as_long())
+    except Exception:  # noqa: algebraic / non-numeral
+        return Fraction(str(v.as_decimal(12)).rstrip("?"))
+
+
+def _replay_numeric(self, ctx, model, label):
+    """native replay of a (candidate) counter-model of an arithmetic handler: the argument types are rebuilt with the real
+    TypeManager, the real handler is called, and a child valuation inside the argument types whose result lies outside the
+    inferred type is searched among the model's values and the interval end points"""
+    import itertools as it
+    import operator
+    from fractions import Fraction
+    from functools import reduce
+    from unified_planning.environment import Environment
+    env = Environment()
+    tm = env.type_manager
+    args = self._args(ctx)
+    n = model.eval(args.n, model_completion=True).as_long() if z3.is_expr(args.n) else int(args.n)
+    if n > 4:
+        return None
+    tb = lambda z: z3.is_true(model.eval(z, model_completion=True))  # noqa: E731
+    types_, descr, cands = [], [], []
+    for j in range(n):
+        t = z3.Select(args.arr, j)
+        if tb(t == Type15.null) or not (tb(is_int(t)) or tb(is_real(t))):
+            return None
+        lo = None if tb(lbnone(t)) else _frac(model, lbR(t))
+        hi = None if tb(ubnone(t)) else _frac(model, ubR(t))
+        if tb(is_int(t)):
+            lo = None if lo is None else int(lo)
+            hi = None if hi is None else int(hi)
+            types_.append(tm.IntType(lo, hi))
+        else:
+            types_.append(tm.RealType(lo, hi))
+        descr.append(str(types_[-1]))
+        mv = _frac(model, evn(z3.Select(args_arr(ctx["e"].z), j)))
+        c = {mv, Fraction(0), Fraction(1), Fraction(-1), Fraction(1000003), Fraction(-1000003)}
+        for b in (lo, hi):
+            if b is not None:
+                c |= {Fraction(b), Fraction(b) + 1, Fraction(b) - 1}
+        ok = [v for v in c if (lo is None or v >= lo) and (hi is None or v <= hi) and (not tb(is_int(t)) or v.denominator == 1)]
+        cands.append(sorted(ok))
+    tc = _tc.TypeChecker(env)
+    concrete = {"handler": self.fn.__name__, "argument_types": descr}
+    try:
+        r = self.fn(tc, None, list(types_))
+    except ZeroDivisionError:
+        return None
+    except Exception as ex:  # noqa
+        return {"reproduced": True, "concrete": concrete, "observed": f"handler raised {type(ex).__name__}: {ex}"}
+    if r is None:
+        return None
+    op = {OK.PLUS: lambda vs: sum(vs), OK.TIMES: lambda vs: reduce(operator.mul, vs, Fraction(1)),
+          OK.MINUS: lambda vs: vs[0] - vs[1], OK.DIV: lambda vs: vs[0] / vs[1]}[self.kind]
+    for vs in it.islice(it.product(*cands), 20000):
+        try:
+            v = op(list(vs))
+        except ZeroDivisionError:
+            continue
+        bad = (r.lower_bound is not None and v < r.lower_bound) or (r.upper_bound is not None and v > r.upper_bound) \
+            or (r.is_int_type() and Fraction(v).denominator != 1)
+        if bad:
+            concrete["child_values"] = [str(x) for x in vs]
+            return {"reproduced": True, "concrete": concrete, "observed": f"inferred {r}, but the value is {v}"}
+    return {"reproduced": False, "concrete": concrete, "observed": f"inferred {r}; no child valuation among the candidates falls outside"}
+
+
+NumHandler.replay = _replay_numeric
+
+
+def replay_file(data):
+    c = data["concrete"]
+    from fractions import Fraction
+    from unified_planning.environment import Environment
+    import re as _re
+    env = Environment()
+    tm = env.type_manager
+
+    def parse(s_):
+        m = _re.match(r"(integer|real)(?:\[(.*), (.*)\])?$", s_)
+        kind, lo, hi = m.group(1), m.group(2), m.group(3)
+        cv = (lambda x: None if x in (None, "-inf", "inf") else (int(x) if kind == "integer" else Fraction(x)))
+        return (tm.IntType if kind == "integer" else tm.RealType)(cv(lo), cv(hi))
+    if "handler" not in c:
+        return {"reproduced": False, "note": "bounded-layer failure: re-run ./check C15"}
+    types_ = [parse(x) for x in c["argument_types"]]
+    fn = getattr(_tc.TypeChecker, c["handler"])
+    try:
+        r = fn(_tc.TypeChecker(env), None, types_)
+    except Exception as ex:  # noqa
+        return {"reproduced": True, "observed": f"handler raised {type(ex).__name__}: {ex}"}
+    vs = [Fraction(x) for x in c.get("child_values", [])]
+    import operator
+    from functools import reduce
+    op = {"walk_plus": lambda v: sum(v), "walk_times": lambda v: reduce(operator.mul, v, Fraction(1)),
+          "walk_minus": lambda v: v[0] - v[1], "walk_div": lambda v: v[0] / v[1]}[c["handler"]]
+    v = op(vs)
+    bad = (r.lower_bound is not None and v < r.lower_bound) or (r.upper_bound is not None and v > r.upper_bound)
+    return {"reproduced": bool(bad), "observed": f"inferred {r}, value {v}"}
+
+
 def zint15(v):
     from pyvc.values import zint
     return zint(v)
